@@ -2,6 +2,7 @@ package rules
 
 import (
 	"fmt"
+	"os"
 	"go/constant"
 	"go/token"
 	"go/types"
@@ -314,6 +315,9 @@ func checkDeliverDelete(l *core.Ledger, r *rt, rm *routerModel, rule string, err
 				}
 			}
 			return false
+		}
+		if os.Getenv("VERIF_DEBUG") != "" {
+			fmt.Printf("DEBUG delivery %s bounded=%v key=%v deletes=%d viaLoop=%v pos=%s\n", d.name, d.bounded, d.key, len(d.deletes), d.viaLoop, l.Prog.Pos(d.send.Pos()))
 		}
 		stream := streamingTrueEdges(d.fn)
 		end := loopHeadOrExit(d.fn)
